@@ -36,9 +36,18 @@ func (s *NSlice) Push(x int64) int64 {
 }
 func (s *NSlice) Reset() { *s = (*s)[:0] }
 
+// IsNil and the other *OrZero methods can be called on a nil pointer, as Go allows
+func (s *NSlice) IsNil() bool { return s == nil }
+
 type NInt int64
 
 func (n NInt) Twice() int64 { return int64(n) * 2 }
+func (n *NInt) OrZero() int64 {
+	if n == nil {
+		return 0
+	}
+	return int64(*n)
+}
 func (n *NInt) Inc(by int64) int64 {
 	*n += NInt(by)
 	return int64(*n)
@@ -47,6 +56,12 @@ func (n *NInt) Inc(by int64) int64 {
 type NMap map[string]int64
 
 func (m NMap) Get(k string) int64 { return m[k] }
+func (m *NMap) LenOrZero() int64 {
+	if m == nil {
+		return 0
+	}
+	return int64(len(*m))
+}
 func (m *NMap) Put(k string, v int64) int64 {
 	if *m == nil {
 		*m = NMap{}
@@ -63,13 +78,13 @@ type NamedCase struct {
 }
 
 var namedMethods = map[string][]string{
-	"slice": {"Len", "At", "Push", "Push", "Reset"},
-	"int":   {"Twice", "Inc", "Inc"},
-	"map":   {"Get", "Put", "Put"},
+	"slice": {"Len", "At", "Push", "Push", "Reset", "IsNil"},
+	"int":   {"Twice", "Inc", "Inc", "OrZero"},
+	"map":   {"Get", "Put", "Put", "LenOrZero"},
 }
 
 func genNamed(t *rapid.T) NamedCase {
-	c := NamedCase{Type: rapid.SampledFrom([]string{"slice", "int", "map"}).Draw(t, "type"), Recv: rapid.SampledFrom([]string{"ptr", "ptr", "val", "ptrlist", "ptrmap"}).Draw(t, "recv")}
+	c := NamedCase{Type: rapid.SampledFrom([]string{"slice", "int", "map"}).Draw(t, "type"), Recv: rapid.SampledFrom([]string{"ptr", "ptr", "val", "ptrlist", "ptrmap", "nilptr"}).Draw(t, "recv")}
 	n := rapid.IntRange(1, 4).Draw(t, "nops")
 	for i := 0; i < n; i++ {
 		c.Ops = append(c.Ops, rapid.SampledFrom(namedMethods[c.Type]).Draw(t, "op"))
@@ -78,7 +93,11 @@ func genNamed(t *rapid.T) NamedCase {
 	return c
 }
 
-func isPtrRecv(m string) bool { return m == "Push" || m == "Reset" || m == "Inc" || m == "Put" }
+func isPtrRecv(m string) bool {
+	return m == "Push" || m == "Reset" || m == "Inc" || m == "Put" || m == "IsNil" || m == "OrZero" || m == "LenOrZero"
+}
+
+func nilSafe(m string) bool { return m == "IsNil" || m == "OrZero" || m == "LenOrZero" }
 
 func oracleNamed(c NamedCase, o *h.Obs) *h.Fail {
 	if len(c.Ops) == 0 || len(c.Ops) != len(c.Args) || len(c.Ops) > 8 {
@@ -117,6 +136,11 @@ func oracleNamed(c NamedCase, o *h.Obs) *h.Fail {
 		e.Define("y", obj.Interface())
 		pre = "m = {\"k\": y}\n"
 		recv = "m.k"
+	case "nilptr":
+		// a typed nil pointer: Go calls pointer-receiver methods on it (the method decides what nil means)
+		obj = reflect.Zero(obj.Type())
+		ref = reflect.Zero(ref.Type())
+		e.Define("x", obj.Interface())
 	default:
 		o.Excluded = "malformed_case"
 		return nil
@@ -129,6 +153,9 @@ func oracleNamed(c NamedCase, o *h.Obs) *h.Fail {
 		if _, ok := reflect.PtrTo(obj.Type().Elem()).MethodByName(m); !ok {
 			o.Excluded = "malformed_case"
 			return nil
+		}
+		if c.Recv == "nilptr" && !nilSafe(m) {
+			continue // every other method dereferences its receiver
 		}
 		arg := c.Args[i]
 		var call string
@@ -195,7 +222,7 @@ func oracleNamed(c NamedCase, o *h.Obs) *h.Fail {
 			return h.Failf("C11|named|wrong-result|"+c.Type+"|"+c.Recv, "call %d\nsource:\n%s\nGo results: %v\nanko: %s", i+1, src, want, ank.Describe(got))
 		}
 	}
-	if !byValue {
+	if !byValue && c.Recv != "nilptr" {
 		if g, w := ank.Describe(obj.Elem().Interface()), ank.Describe(ref.Elem().Interface()); g != w {
 			return h.Failf("C11|named|receiver-state|"+c.Type+"|"+c.Recv, "after the calls the Go value behind the pointer differs from the one Go's own calls leave\nsource:\n%s\nGo:   %s\nanko: %s", src, w, g)
 		}
@@ -412,4 +439,201 @@ func withProcsC11(n int, f func()) {
 	old := runtime.GOMAXPROCS(n)
 	defer runtime.GOMAXPROCS(old)
 	f()
+}
+
+// ---------------------------------------------------------------- reconv
+
+// ReconvCase: one script container is handed to a Go function several times, and changed in place
+// between the calls. Every call converts the container as it is THEN (element by element).
+type ReconvCase struct {
+	Kind  string  `json:"kind"`  // ints ([]int64 parameter) | strs ([]string) | mapsi (map[string]int64) | floats ([]float64)
+	Init  []int64 `json:"init"`  // initial elements (1..5)
+	Edits []int64 `json:"edits"` // one in-place change before each further call: index*1000 + value
+}
+
+func genReconv(t *rapid.T) ReconvCase {
+	c := ReconvCase{Kind: rapid.SampledFrom([]string{"ints", "ints", "strs", "mapsi", "floats"}).Draw(t, "kind")}
+	n := rapid.IntRange(1, 5).Draw(t, "n")
+	for i := 0; i < n; i++ {
+		c.Init = append(c.Init, rapid.Int64Range(0, 9).Draw(t, "init"))
+	}
+	for k := rapid.IntRange(1, 3).Draw(t, "calls"); k > 0; k-- {
+		c.Edits = append(c.Edits, int64(rapid.IntRange(0, n-1).Draw(t, "at"))*1000+rapid.Int64Range(10, 99).Draw(t, "to"))
+	}
+	return c
+}
+
+func oracleReconv(c ReconvCase, o *h.Obs) *h.Fail {
+	if len(c.Init) < 1 || len(c.Init) > 8 || len(c.Edits) < 1 || len(c.Edits) > 6 {
+		o.Excluded = "malformed_case"
+		return nil
+	}
+	cur := append([]int64{}, c.Init...)
+	var seen []string // what Go receives, call by call
+	e := env.NewEnv()
+	e.Define("ints", func(xs []int64) int64 { seen = append(seen, fmt.Sprint(xs)); return int64(len(xs)) })
+	e.Define("floats", func(xs []float64) int64 { seen = append(seen, fmt.Sprint(xs)); return int64(len(xs)) })
+	e.Define("strs", func(xs []string) int64 { seen = append(seen, fmt.Sprint(xs)); return int64(len(xs)) })
+	e.Define("mapsi", func(m map[string]int64) int64 {
+		keys := make([]string, 0, len(m))
+		for k := range m {
+			keys = append(keys, k)
+		}
+		sort.Strings(keys)
+		parts := make([]string, len(keys))
+		for i, k := range keys {
+			parts[i] = fmt.Sprintf("%s:%d", k, m[k])
+		}
+		seen = append(seen, "["+strings.Join(parts, " ")+"]")
+		return int64(len(m))
+	})
+	render := func(xs []int64) string {
+		parts := make([]string, len(xs))
+		for i, x := range xs {
+			switch c.Kind {
+			case "strs":
+				parts[i] = fmt.Sprintf("s%d", x)
+			case "mapsi":
+				parts[i] = fmt.Sprintf("k%d:%d", i, x)
+			default:
+				parts[i] = fmt.Sprint(x)
+			}
+		}
+		return "[" + strings.Join(parts, " ") + "]"
+	}
+	var src strings.Builder
+	switch c.Kind {
+	case "strs":
+		parts := make([]string, len(cur))
+		for i, x := range cur {
+			parts[i] = fmt.Sprintf("\"s%d\"", x)
+		}
+		src.WriteString("l = [" + strings.Join(parts, ", ") + "]\n")
+	case "mapsi":
+		parts := make([]string, len(cur))
+		for i, x := range cur {
+			parts[i] = fmt.Sprintf("\"k%d\": %d", i, x)
+		}
+		src.WriteString("l = {" + strings.Join(parts, ", ") + "}\n")
+	default:
+		parts := make([]string, len(cur))
+		for i, x := range cur {
+			parts[i] = fmt.Sprint(x)
+		}
+		src.WriteString("l = [" + strings.Join(parts, ", ") + "]\n")
+	}
+	want := []string{render(cur)}
+	src.WriteString(c.Kind + "(l)\n")
+	for _, ed := range c.Edits {
+		at, to := int(ed/1000), ed%1000
+		if at < 0 || at >= len(cur) {
+			o.Excluded = "malformed_case"
+			return nil
+		}
+		cur[at] = to
+		switch c.Kind {
+		case "strs":
+			fmt.Fprintf(&src, "l[%d] = \"s%d\"\n", at, to)
+		case "mapsi":
+			fmt.Fprintf(&src, "l.k%d = %d\n", at, to)
+		default:
+			fmt.Fprintf(&src, "l[%d] = %d\n", at, to)
+		}
+		src.WriteString(c.Kind + "(l)\n")
+		want = append(want, render(cur))
+	}
+	o.Key = src.String()
+	o.NonTrivial = true
+	o.Class("reconv:" + c.Kind)
+	_, err := ank.Exec(e, src.String())
+	if hp, ok := ank.IsHostPanic(err); ok {
+		return h.Failf("C11|reconv|host-panic", "source:\n%s\nescaped panic: %v", src.String(), hp.Value)
+	}
+	if err != nil {
+		return h.Failf("C11|reconv|error|"+c.Kind, "source:\n%s\nerror: %v", src.String(), err)
+	}
+	if fmt.Sprint(seen) != fmt.Sprint(want) {
+		return h.Failf("C11|reconv|stale-or-wrong-conversion|"+c.Kind, "one script container handed to a Go function several times and changed in place between the calls: every call must receive the container as it is at that moment\nsource:\n%s\nGo received: %v\nexpected:    %v", src.String(), seen, want)
+	}
+	return nil
+}
+
+// ---------------------------------------------------------------- arrayptr
+
+// ArrayPtrCase: a Go parameter of array or pointer-to-array type given a script list of another length.
+type ArrayPtrCase struct {
+	Param string `json:"param"` // arr3 ([3]int64) | parr3 (*[3]int64) | parr3i (*[3]interface{}) | arr0 ([0]int64)
+	Len   int    `json:"len"`   // elements of the list passed (0..5)
+	Typed bool   `json:"typed"` // the list is a []int64 literal instead of an untyped one
+}
+
+func genArrayPtr(t *rapid.T) ArrayPtrCase {
+	return ArrayPtrCase{Param: rapid.SampledFrom([]string{"arr3", "parr3", "parr3", "parr3i", "arr0"}).Draw(t, "param"), Len: rapid.IntRange(0, 5).Draw(t, "len"), Typed: rapid.Bool().Draw(t, "typed")}
+}
+
+func oracleArrayPtr(c ArrayPtrCase, o *h.Obs) *h.Fail {
+	if c.Len < 0 || c.Len > 8 {
+		o.Excluded = "malformed_case"
+		return nil
+	}
+	got := ""
+	e := env.NewEnv()
+	e.Define("arr3", func(a [3]int64) int64 { got = fmt.Sprint(a); return 1 })
+	e.Define("arr0", func(a [0]int64) int64 { got = fmt.Sprint(a); return 1 })
+	e.Define("parr3", func(a *[3]int64) int64 {
+		if a == nil {
+			got = "nil"
+		} else {
+			got = fmt.Sprint(*a)
+		}
+		return 1
+	})
+	e.Define("parr3i", func(a *[3]interface{}) int64 {
+		if a == nil {
+			got = "nil"
+		} else {
+			got = fmt.Sprint(*a)
+		}
+		return 1
+	})
+	parts := make([]string, c.Len)
+	for i := range parts {
+		parts[i] = fmt.Sprint(i + 1)
+	}
+	lit := "[" + strings.Join(parts, ", ") + "]"
+	if c.Typed {
+		lit = "[]int64{" + strings.Join(parts, ", ") + "}"
+	}
+	src := c.Param + "(" + lit + ")"
+	o.Key = src
+	o.NonTrivial = true
+	o.Class(fmt.Sprintf("arrayptr:%s_len%d", c.Param, c.Len))
+	_, err := ank.Exec(e, src)
+	if hp, ok := ank.IsHostPanic(err); ok {
+		return h.Failf("C11|arrayptr|host-panic|"+c.Param, "a list of %d element(s) passed to a Go parameter of array / pointer-to-array type: the call must fail with an error when no conversion exists, not panic\nsource:\n%s\nescaped panic: %v", c.Len, src, hp.Value)
+	}
+	if err != nil {
+		o.Class("arrayptr:error")
+		return nil
+	}
+	// the call went through: what arrived must be a prefix-exact image of the list
+	n := 3
+	if c.Param == "arr0" {
+		n = 0
+	}
+	wantParts := make([]string, n)
+	for i := range wantParts {
+		if i < c.Len {
+			wantParts[i] = fmt.Sprint(i + 1)
+		} else if c.Param == "parr3i" {
+			wantParts[i] = "<nil>"
+		} else {
+			wantParts[i] = "0"
+		}
+	}
+	want := "[" + strings.Join(wantParts, " ") + "]"
+	if got != want {
+		return h.Failf("C11|arrayptr|wrong-value|"+c.Param, "source:\n%s\nthe Go function received %s, the list spells %s (shorter lists are padded with zero values where the call is accepted at all)", src, got, want)
+	}
+	return nil
 }
